@@ -27,11 +27,9 @@ pub open spec fn simd_of(v: Seq<U31x8>, t: Seq<U31>) -> bool {
 /// the result of the (unverified) file reader RawConnectorBuilder::from_readers, as a function of the three readers
 pub uninterp spec fn raw_builder_result<R, L, C>(right_rdr: R, left_rdr: L, cost_rdr: C) -> Result<RawConnectorBuilder, VibratoError>;
 
-/// ASSUMED about what RawConnectorBuilder::from_readers returns (read off its body, which is string / HashMap code outside Verus):
-/// feat_template_size is the maximum row length, and the padded tables fit in the address space (each row is a live Vec)
-pub open spec fn builder_shape(b: RawConnectorBuilder) -> bool {
-    &&& forall|r: int| 0 <= r < b.right_feat_ids_tmp.len() ==> (#[trigger] b.right_feat_ids_tmp[r]).len() <= b.feat_template_size
-    &&& forall|r: int| 0 <= r < b.left_feat_ids_tmp.len() ==> (#[trigger] b.left_feat_ids_tmp[r]).len() <= b.feat_template_size
+/// ASSUMED about what RawConnectorBuilder::from_readers returns (stub-only clause): the padded tables fit in the address space
+/// (each row is a live Vec, so rows x (width + 8) elements of 4 bytes is far below 2^64 on any machine that holds the rows)
+pub open spec fn builder_fits(b: RawConnectorBuilder) -> bool {
     &&& (b.right_feat_ids_tmp.len() + 1) * (b.feat_template_size + 8) <= usize::MAX
     &&& (b.left_feat_ids_tmp.len() + 1) * (b.feat_template_size + 8) <= usize::MAX
 }
